@@ -98,6 +98,12 @@ CHECKS["C14"] = (
     "Docstring defaults/optionality under DOCSTRING preference are don't-care; correspondence of documented results to tuple elements is only assumed when counts match.",
     "6/C14",
 )
+CHECKS["C13"] = (
+    "explicit-state breadth-first search to a fixpoint over the states of the real docstring parser's one-entry cache (every query on every element in every reachable state, differential invariant, visitor trace replayed for conformance) + bounded-exhaustive enumeration of declaration orderings through the real pipeline",
+    "Part A: for each structured style, BFS from the empty cache over (cached name, owner of cached docstring); events are all public parser queries on all elements of a package with colliding names; in every state every answer must equal the empty-cache answer and the cached docstring must belong to the cached name; the query sequence the real visitor issues on that package must lie inside the explored graph (33 states, 1155 transitions, 3 traces). Part B: unique tokens on module/class/constructor/function/method/parameter/result/attribute/example texts, permutations of 4 top-level declarations (9 quick, all 24 thorough) and of class members, 4 styles: every token in exactly one documentation comment, its element's, in the right block, multi-line texts in order. Part C: constructs common to the three structured styles give equal documentation.",
+    "Cache state is read/restored through name-mangled attributes from the harness; docstring types are C14's; markup outside the token alphabet is not covered.",
+    "6/C13",
+)
 NOT_YET = {}  # id -> reason (filled for properties without a check)
 
 props = [json.loads(l) for l in open(V / "properties.jsonl")]
